@@ -184,6 +184,7 @@ type event struct {
 	n    int
 	gate chan release
 	k    string
+	st   string // runtime state of the goroutine when it was seen parked
 }
 
 type driver struct {
@@ -268,7 +269,7 @@ func (d *driver) settle(cs []*call, expect map[*call]bool) {
 			isParked := parked(st[cl.g])
 			if cl.state == "new" && isParked && !(expect[cl] && time.Since(t0) < graceWait) {
 				cl.state = "blocked"
-				d.handle(event{kind: "blocked", cl: cl})
+				d.handle(event{kind: "blocked", cl: cl, st: st[cl.g]})
 				continue
 			}
 			if cl.state == "blocked" && !(expect[cl] && time.Since(t0) < graceWait) {
@@ -573,6 +574,10 @@ func newLim(c *eng.Ctx) *limWorld {
 			c.W.Ev("Ret", "c", cl.c, "out", e.out)
 			cl.state = "done"
 			delete(w.cur, cl.c)
+		case "blocked":
+			if e.st == "sync.Cond.Wait" { // parked in cond.Wait: some execution of its task must be in flight
+				c.W.Ev("Waiting", "c", cl.c, "k", cl.k)
+			}
 		case "recall": // the same goroutine calls Run again (logged in program order)
 			c.W.Ev("Run", "c", cl.c, "k", e.k)
 			cl.k, cl.state = e.k, "new"
@@ -810,7 +815,33 @@ func traceTrap(c *eng.Ctx, t int, rng *rand.Rand) {
 				gated = cl
 			}
 		}
+		trapCall := func(cl *call) {
+			cur[cl.c] = cl
+			c.W.Ev("Trap", "c", cl.c)
+			d.spawn(cl, func() {
+				trap.Trap()
+				d.evc <- event{kind: "ret", cl: cl}
+			})
+		}
 		switch x := rng.Intn(10); {
+		case x == 0 && len(idle) > 1 && gated == nil:
+			// two callers inside the unlocked window of Trap: the first is delayed in ready() with the read lock held
+			// (clock read, then preempted), the second passes its own check and queues for the write lock
+			held, rel := clk.arm(1)
+			ca, cb := &call{c: idle[0]}, &call{c: idle[1]}
+			trapCall(ca)
+			select {
+			case <-held:
+			case <-time.After(longWait):
+				d.abort("clock hold not reached")
+				close(rel)
+				continue
+			}
+			trapCall(cb)
+			d.settle([]*call{cb}, nil)
+			close(rel)
+			ca.state = "new"
+			d.settle(active(), map[*call]bool{ca: true, cb: true})
 		case x < 5 && len(idle) > 0:
 			cl := &call{c: idle[rng.Intn(len(idle))]}
 			cur[cl.c] = cl
